@@ -125,13 +125,18 @@ func init() {
 					js = append(js, JobSpec{Set: "redis", Fn: "HarnessC03Pipeline", Params: p("cmd", c, "maxargs", "1", "maxlen", "1", "shape", "quit", "chunked", "1", "unwind", "256")})
 				}
 			}
+			// state left behind by one request must not stall the next: CONFIG SET twice, then again (keywords reachable)
+			js = append(js, JobSpec{Set: "redis", Fn: "HarnessC03Stateful", Params: p("requests", map[string]string{"quick": "3", "thorough": "4"}[rc.Tier]), Split: 3})
+			for _, c := range []string{"SELECT", "AUTH", "SET", "ZADD"} {
+				js = append(js, JobSpec{Set: "redis", Fn: "HarnessC03Pipeline", Params: p("cmd", c, "maxargs", "2", "maxlen", "1", "shape", "repeat", "unwind", "256"), Split: 3})
+			}
 			// lower-case and unknown command names
 			js = append(js, JobSpec{Set: "redis", Fn: "HarnessC03Pipeline", Params: p("cmd", "nosuchcmd", "maxargs", "2", "maxlen", "1", "unwind", "256")})
 			js = append(js, JobSpec{Set: "redis", Fn: "HarnessC03Pipeline", Params: p("cmd", "zadd", "maxargs", "3", "maxlen", "2", "unwind", "256")})
 			return js
 		},
 		UnwindIsFinding: true,
-		RequiredCovers:  map[string][]string{"HarnessC03Pipeline": {"end", "quit", "ping-answered", "handler-called"}},
+		RequiredCovers:  map[string][]string{"HarnessC03Pipeline": {"end", "quit", "ping-answered", "handler-called", "repeat"}, "HarnessC03Stateful": {"end"}},
 		Bounds: func(tier string) map[string]interface{} {
 			if tier == "thorough" {
 				return map[string]interface{}{"pipeline": "[cmd args] PING and [cmd args] QUIT PING", "commands": "every registered executor (read from the SSA of the current tree)", "args": "<=4 arguments, each any byte string of length 0..2 or a long option keyword", "handler_results": "status, integer, bulk, null, array, empty array, error", "chunking": "quit pipelines: every two-segment split; bare command + QUIT + PING: every partition into reads", "unwind": 256}
@@ -316,16 +321,25 @@ func init() {
 					{Set: "redis", Fn: "HarnessC08Gate", Params: p("requests", "3", "passlen", "2"), Split: 4, Overrides: netOverrides},
 					{Set: "redis", Fn: "HarnessC08Gate", Params: p("requests", "2", "passlen", "3"), Split: 3, Overrides: netOverrides},
 					{Set: "redis", Fn: "HarnessC08TwoConns", Params: p("passlen", "2", "preempt", "2"), Split: 8, Overrides: netOverrides},
+					{Set: "redis", Fn: "HarnessC08Long", Params: p("extra", "255"), Overrides: netOverrides},
+					{Set: "redis", Fn: "HarnessC08Long", Params: p("extra", "256"), Overrides: netOverrides},
+					{Set: "redis", Fn: "HarnessC08Long", Params: p("extra", "257"), Overrides: netOverrides},
+					{Set: "redis", Fn: "HarnessC08Long", Params: p("extra", "65536"), Overrides: netOverrides},
 				}
 			}
 			return []JobSpec{
 				{Set: "redis", Fn: "HarnessC08Gate", Params: p("requests", "2", "passlen", "2"), Split: 6, Overrides: netOverrides},
+				{Set: "redis", Fn: "HarnessC08Gate", Params: p("requests", "3", "passlen", "1", "small", "1"), Split: 4, Overrides: netOverrides},
 				{Set: "redis", Fn: "HarnessC08TwoConns", Params: p("passlen", "1", "preempt", "1"), Overrides: netOverrides},
+				{Set: "redis", Fn: "HarnessC08Long", Params: p("extra", "255"), Overrides: netOverrides},
+				{Set: "redis", Fn: "HarnessC08Long", Params: p("extra", "256"), Overrides: netOverrides},
+				{Set: "redis", Fn: "HarnessC08Long", Params: p("extra", "257"), Overrides: netOverrides},
+				{Set: "redis", Fn: "HarnessC08Long", Params: p("extra", "512"), Overrides: netOverrides},
 			}
 		},
-		RequiredCovers: map[string][]string{"HarnessC08Gate": {"end", "auth-one-arg", "auth-two-args", "auth-null", "authorised", "refused"}, "HarnessC08TwoConns": {"end"}},
+		RequiredCovers: map[string][]string{"HarnessC08Gate": {"end", "auth-one-arg", "auth-two-args", "auth-null", "authorised", "refused"}, "HarnessC08TwoConns": {"end"}, "HarnessC08Long": {"end"}},
 		Bounds: func(tier string) map[string]interface{} {
-			return map[string]interface{}{"password": "every byte string of length 0..2 (thorough 3)", "candidates": "every byte string of length 0..len(password)+1 (so empty, prefixes, extensions, case variants, embedded NUL/CRLF are all inside), null bulk, missing argument, one- and two-argument forms", "sequence": "2 (thorough 3) requests from {AUTH forms, GET, PING, SELECT, CONFIG SET}", "connections": "second harness: two connections in every interleaving of their reads"}
+			return map[string]interface{}{"long_candidates": "password followed by 255, 256, 257, 512 (thorough 65536) arbitrary bytes", "password": "every byte string of length 0..2 (thorough 3)", "candidates": "every byte string of length 0..len(password)+1 (so empty, prefixes, extensions, case variants, embedded NUL/CRLF are all inside), null bulk, missing argument, one- and two-argument forms", "sequence": "2 (thorough 3) requests from {AUTH forms, GET, PING, SELECT, CONFIG SET}", "connections": "second harness: two connections in every interleaving of their reads"}
 		},
 		Assumptions: append(append([]string{"Server.Start runs for real with net.Listen redirected to a stub port table; accept loops are spawned and block in Accept"}, connLoopAssumptions...), commonAssumptions...),
 		Outside:     []string{"longer passwords and sequences", "TLS connections (C09)"},
@@ -431,7 +445,7 @@ func init() {
 			}
 		},
 		EngineOnly:     map[string]bool{"HarnessC19Stop": true, "HarnessC09Handshakes": true},
-		RequiredCovers: map[string][]string{"HarnessC19Endings": {"end", "eof-at-boundary", "eof-inside-request", "reset", "quit", "malformed", "write-failure", "rejected-certificate"}, "HarnessC19Stop": {"end", "mid-request"}, "HarnessC09Handshakes": {"end", "failed-handshake"}},
+		RequiredCovers: map[string][]string{"HarnessC19Endings": {"end", "eof-at-boundary", "eof-inside-request", "reset", "quit", "malformed", "write-failure", "rejected-certificate"}, "HarnessC19Stop": {"end", "mid-request", "close-error"}, "HarnessC09Handshakes": {"end", "failed-handshake"}},
 		Bounds: func(tier string) map[string]interface{} {
 			return map[string]interface{}{"endings": "FIN at a request boundary, FIN at every offset inside the pipeline, RST at every offset, QUIT, malformed frame (1..2, thorough 4 arbitrary bytes), write failure from reply k on, rejected certificate, TLS handshake failure/stall, server Stop with idle and mid-request clients", "pipeline": "1..2 (thorough 3) SET requests with symbolic payload", "stop": "1..2 (thorough 3) clients, each with 0..2 complete requests sent and optionally a partial one"}
 		},
